@@ -347,7 +347,19 @@ def replay(desc, col):
 
 
 REGISTER = True
-MUTANTS = []
+MUTANTS = [
+    {"what": "merge_next: objective column of the right table added twice", "caught": True, "how": "join:sum"},
+    {"what": "row2pmappings: tile shapes read from the first Einsum's columns", "caught": True, "how": "model-rejects-returned-mapping"},
+    {"what": "_apply_edp_columns: EDP = energy + latency", "caught": True, "how": "total:edp",
+     "note": "survived the first version (A's EDP was compared with the model's EDP column, built by the same helper); the oracle now multiplies the model's energy and latency itself"},
+    {"what": "merge_next: 'RIGHT tree, RIGHT reservations' loop disabled (reported usage of 3-Einsum joins too small)", "caught": True,
+     "how": "total:usage-vs-execution",
+     "note": "survived while usage was only compared with evaluate_mapping (which joins with the same code); caught after adding the literal-executor peak as usage reference and more 3-Einsum cases"},
+    {"what": "merge_next: 'LEFT tree, RIGHT reservations' loop disabled; shared_to_free uses < instead of <=", "caught": False,
+     "note": "direct probes (chain of 3 matmuls, 22 returned rows) show bit-identical reported usage with and without these two mutations: no observable effect in the domain"},
+    {"what": "run_model: n_instances applied to latency but not energy (planned in DESIGN)", "caught": None,
+     "note": "not run: mapper and harness evaluation share run_model, so C04 cannot see it by construction; the detailed-column variant is C28's mutant 5, action/energy correctness is C05's subject"},
+]
 MANIFEST = {
     "level_text": "For every row returned by map_workload_to_arch(eval_in_detail=False) on N generated small specs the harness rebuilds the mapping and evaluates it with evaluate_mapping on a fresh spec; totals (energy, latency, EDP, per-memory usage), the per-Einsum values of the constituent pmapping-table rows and their sum are compared with the model, and a second run with eval_in_detail=True must return the same mappings with the same numbers. No counterexample found; not a proof.",
     "level_note": "Trusted: evaluate_mapping as the model (its own correctness is C05/C06). Per-Einsum comparison needs the pmapping row to be found (label per_einsum_lookup). Domain: temporal-only architectures Main/GLB(/Reg)/MAC, 1-3 Einsums.",
